@@ -1,9 +1,52 @@
 import Iox2.Model.ResizeMem
 import Driver.Util
 namespace Driver.ResizeMemD
-open Driver
+open Iox2.Alloc Iox2.ResizeMem Driver
 
-def stepLine (s : Unit) (_t : List String) : Unit × String := (s, "unimplemented")
+def showErr : Err → String
+  | .oom => "err:oom"
+  | .size => "err:size"
+  | .align => "err:align"
+  | .shrink => "err:shrink"
+  | .internal => "err:internal"
+  | .doesNotExist => "err:DoesNotExist"
 
-def comp : Comp := { σ := Unit, init := (), step := stepLine }
+def showOut : Out → String
+  | .ok => "ok"
+  | .okAt seg off => s!"ok:{seg}:{off}"
+  | .okByte b => s!"ok:{b}"
+  | .num n => toString n
+  | .err e => showErr e
+  | .dup => "dup"
+  | .none => "none"
+  | .tainted => "tainted"
+
+def parseOp : List String → Option Op
+  | ["alloc", l, size, align] => some (.alloc (nat! l) (nat! size) (nat! align))
+  | ["write", l, b] => some (.write (nat! l) (nat! b))
+  | ["dealloc", l] => some (.dealloc (nat! l))
+  | ["grow", l, size, align, pl] =>
+      some (.grow (nat! l) (nat! size) (nat! align) (if pl = "back" then .back else .front))
+  | ["view_register", v, l] => some (.vreg (nat! v) (nat! l))
+  | ["view_read", v, l] => some (.vread (nat! v) (nat! l))
+  | ["view_unregister", v, l] => some (.vunreg (nat! v) (nat! l))
+  | ["segments"] => some .segments
+  | ["view_segments", v] => some (.vsegments (nat! v))
+  | _ => none
+
+def stepLine (d : Option St) (t : List String) : Option St × String :=
+  match t with
+  | "new" :: st :: size :: align :: chunks :: _ =>
+      let strat := if st = "static" then Strategy.static else if st = "bestfit" then .bestFit else .powerOfTwo
+      let cfg : Cfg := { strategy := strat }
+      match create cfg (nat! size) (nat! align) (nat! chunks) 2 with
+      | .ok s => (some s, s!"ok base={cfg.base}")
+      | .error .sizeIsZero => (none, "err:alloc:SizeIsZero")
+      | .error .internalError => (none, "err:alloc:InternalError")
+  | _ =>
+    match d, parseOp t with
+    | some s, some op => let (s', o) := step s op; (some s', showOut o)
+    | _, _ => (d, "bad-op")
+
+def comp : Comp := { σ := Option St, init := none, step := stepLine }
 end Driver.ResizeMemD
